@@ -6,6 +6,7 @@ package classifier
 
 import (
 	"bytes"
+	"math"
 	"errors"
 	"fmt"
 	"io"
@@ -325,17 +326,17 @@ func (vt *v2T) scenC04() {
 				switch vt.rng.Intn(5) {
 				case 0:
 					other := inputs[vt.rng.Intn(len(inputs))]
-					cp := append([]byte(nil), other...)
+					cp := v2Spare(other)
 					d0, w0 := len(c.c.docs), len(c.c.dict.words)
 					c.c.Normalize(cp)
-					vt.emit(map[string]interface{}{"ev": "norm", "c": c.id, "unchanged": bytes.Equal(cp, other), "docs": []int{d0, len(c.c.docs)}, "dict": []int{w0, len(c.c.dict.words)}})
+					vt.emit(map[string]interface{}{"ev": "norm", "c": c.id, "unchanged": v2Intact(cp, other), "docs": []int{d0, len(c.c.docs)}, "dict": []int{w0, len(c.c.dict.words)}})
 				case 1:
 					vt.match(c, inputs[vt.rng.Intn(len(inputs))], v2MatchOpts{api: "MatchFrom"})
 				case 2: // the very input is normalized first
-					cp := append([]byte(nil), in...)
+					cp := v2Spare(in)
 					d0, w0 := len(c.c.docs), len(c.c.dict.words)
 					c.c.Normalize(cp)
-					vt.emit(map[string]interface{}{"ev": "norm", "c": c.id, "unchanged": bytes.Equal(cp, in), "docs": []int{d0, len(c.c.docs)}, "dict": []int{w0, len(c.c.dict.words)}})
+					vt.emit(map[string]interface{}{"ev": "norm", "c": c.id, "unchanged": v2Intact(cp, in), "docs": []int{d0, len(c.c.docs)}, "dict": []int{w0, len(c.c.dict.words)}})
 				}
 				api := "Match"
 				if (ci+ii+round)%3 == 0 {
@@ -364,11 +365,17 @@ type v2ChunkReader struct {
 	withEOF bool  // deliver the last bytes together with io.EOF
 	failAt  int   // fail with failErr once this many bytes were delivered (-1: never)
 	failErr error
+	once    bool // the fault is transient: the Read after it succeeds again (a timeout)
+	failed  bool
 	sent    int
 }
 
 func (r *v2ChunkReader) Read(p []byte) (int, error) {
+	if r.once && r.failed {
+		r.failAt = -1
+	}
 	if r.failAt >= 0 && r.sent >= r.failAt {
+		r.failed = true
 		return 0, r.failErr
 	}
 	if len(r.data) == 0 {
@@ -385,6 +392,7 @@ func (r *v2ChunkReader) Read(p []byte) (int, error) {
 	if r.failAt >= 0 && r.sent+n > r.failAt {
 		n = r.failAt - r.sent
 		if n == 0 {
+			r.failed = true
 			return 0, r.failErr
 		}
 	}
@@ -421,6 +429,12 @@ func (vt *v2T) scenC08() {
 	var contents [][]byte
 	long := append(append(append([]byte(nil), mit.Data...), mbDoc.Data...), apacheHdr.Data...)
 	contents = append(contents, append(append(multi(mit.Data), '\n'), mbDoc.Data...), multi(apacheHdr.Data), append(append(long, long...), mbDoc.Data...))
+	// texts full of continuation bytes that END in a truncated multi-byte sequence: at some pad width the input ends
+	// exactly where a buffer pass ends, and nothing behind the last byte may complete the sequence
+	mb2 := []byte(strings.Repeat(strings.Join(mbWords, "é ")+" ÿßæø\n", 3))
+	for _, tail := range [][]byte{{0xc3}, {0xe2, 0x80}, {0xf0, 0x9f, 0x92}} {
+		contents = append(contents, append(append([]byte(nil), mb2...), tail...))
+	}
 	nd := 6
 	if vt.thorough() {
 		nd = 40
@@ -447,7 +461,7 @@ func (vt *v2T) scenC08() {
 		}
 		// (2) pads: every width 0..2*1024+8 for the first contents, a seeded sample for the others
 		var pads []int
-		if ci < 2 || vt.thorough() {
+		if ci < 2 || (ci >= 3 && ci <= 5) || vt.thorough() {
 			for p := 0; p <= 2*1024+8; p++ {
 				pads = append(pads, p)
 			}
@@ -477,8 +491,9 @@ func (vt *v2T) scenC08() {
 			o := o
 			e := errors.New(fmt.Sprintf("verif reader fault at %d", o))
 			fr := []int{[]int{1, 7, 1024, 4096}[k%4]}
+			once := (k/4)%2 == 1 // every other fault is transient: the reader would go on if asked again
 			vt.match(c, content, v2MatchOpts{api: "MatchFrom", reader: func(data []byte) (interface{ Read([]byte) (int, error) }, string) {
-				return &v2ChunkReader{data: data, chunks: fr, failAt: o, failErr: e}, e.Error()
+				return &v2ChunkReader{data: data, chunks: fr, failAt: o, failErr: e, once: once}, e.Error()
 			}})
 		}
 		vt.reset(false)
@@ -503,7 +518,7 @@ func (vt *v2T) scenC10() {
 		docs []v2Doc
 	}
 	corps := []corp{{"small", small}, {"empty", nil}, {"emptydoc", append(append([]v2Doc(nil), small[:1]...), emptyDocs...)}}
-	thrs := []float64{0, 0.2, 0.5, 0.8, 0.9, 1.0}
+	thrs := []float64{0, 0.2, 0.5, 0.8, 0.9, 1.0, 1 - 1e-12, math.Nextafter(1, 0), 0.999}
 	seeds := [][]byte{small[0].Data, small[1].Data}
 	mut := func(b []byte) []byte {
 		b = append([]byte(nil), b...)
@@ -524,7 +539,8 @@ func (vt *v2T) scenC10() {
 				b = append(b[:p], append([]byte{[]byte{0, 0xff, 0xc3, 0xe2, 0xf0, 0x80}[vt.rng.Intn(6)]}, b[p:]...)...)
 			}
 		case 5: // HTML entities, including malformed ones
-			ents := []string{"&amp;", "&#xFFFFFFFF;", "&#0;", "&#x110000;", "&quot", "&;", "&#;", "&#x;", "&copy;", "&nbsp;", "&#1114112;", "&lt;&gt;"}
+			ents := []string{"&amp;", "&#xFFFFFFFF;", "&#0;", "&#x110000;", "&quot", "&;", "&#;", "&#x;", "&copy;", "&nbsp;", "&#1114112;", "&lt;&gt;",
+				"\n&#41; ", "\n&rpar; ", "\n&#46; ", "\n&period; ", "\n&#58; ", "\n&colon; ", " &#41; ", "\n&#x29;\n", "\n&lpar; ", "\n&hyphen;\n", "\n&#45;\n"}
 			for k := 0; k < 1+vt.rng.Intn(6) && len(b) > 0; k++ {
 				p := vt.rng.Intn(len(b))
 				b = append(b[:p], append([]byte(ents[vt.rng.Intn(len(ents))]), b[p:]...)...)
@@ -551,7 +567,11 @@ func (vt *v2T) scenC10() {
 		nmut = 300
 	}
 	var inputs [][]byte
-	inputs = append(inputs, nil, []byte(""), []byte("!!! ---"), []byte("\n"), []byte("-\n-\n"), []byte("Copyright 2020 X\n"), []byte("a"), []byte("\xff"), []byte("&"), []byte("("), []byte("(c)"))
+	inputs = append(inputs, nil, []byte(""), []byte("!!! ---"), []byte("\n"), []byte("-\n-\n"), []byte("Copyright 2020 X\n"), []byte("a"), []byte("\xff"), []byte("&"), []byte("("), []byte("(c)"),
+		[]byte("&#41; first word is a lone parenthesis\n&period;\n&#58; and a colon &#41;\n"), []byte("&#41;"), []byte(")\n.\n:\n"))
+	// the corpus documents themselves: the only inputs that still produce hits at thresholds next to 1
+	inputs = append(inputs, seeds...)
+	inputs = append(inputs, append(append([]byte("zzqxv qqzzk\n"), seeds[0]...), []byte("\nxqzvv\n")...))
 	for k := 0; k < nmut; k++ {
 		inputs = append(inputs, mut(seeds[vt.rng.Intn(len(seeds))]))
 	}
@@ -559,8 +579,8 @@ func (vt *v2T) scenC10() {
 		for ti, thr := range thrs {
 			c := vt.build(fmt.Sprintf("c10_%d_%d", ci, ti), thr, cp.docs)
 			for _, in := range inputs {
-				if thr < 0.5 && len(in) > 4000 {
-					continue // quadratic matching below 0.5 (q = 1): time/space complexity is not part of C10
+				if (thr < 0.5 || (thr > 0.99 && thr < 1)) && len(in) > 4000 {
+					continue // quadratic matching below 0.5 (q = 1), q-grams of ~1/(1-t) words next to 1: time/space complexity is not part of C10
 				}
 				vt.totalCall(c, in)
 			}
